@@ -114,6 +114,23 @@ pub fn te_consistency<C: TECurveConfig>(t: &mut Tally, name: &str, rng: &mut Rng
     }
 }
 
+/// hash-to-curve constants are configuration constants too (C16): Elligator 2 quotients, SWU non-square, isogenous curve
+pub fn ell2_consistency<C: ark_ec::hashing::curve_maps::elligator2::Elligator2Config>(t: &mut Tally, name: &str, _rng: &mut Rng) {
+    let (a, b) = (<C as MontCurveConfig>::COEFF_A, <C as MontCurveConfig>::COEFF_B);
+    t.check(!b.is_zero() && C::ONE_OVER_COEFF_B_SQUARE * b.square() == C::BaseField::one(), || format!("{name}: ONE_OVER_COEFF_B_SQUARE != 1 / COEFF_B^2"));
+    t.check(C::COEFF_A_OVER_COEFF_B * b == a, || format!("{name}: COEFF_A_OVER_COEFF_B != COEFF_A / COEFF_B"));
+    t.check(C::Z.legendre().is_qnr(), || format!("{name}: Elligator2 Z is a square"));
+}
+pub fn swu_consistency<C: ark_ec::hashing::curve_maps::wb::WBConfig>(t: &mut Tally, name: &str, _rng: &mut Rng) {
+    use ark_ec::hashing::curve_maps::swu::SWUConfig;
+    t.check(<C::IsogenousCurve as SWUConfig>::ZETA.legendre().is_qnr(), || format!("{name}: SWU ZETA of the isogenous curve is a square"));
+    t.check(!<C::IsogenousCurve as SWCurveConfig>::COEFF_A.is_zero() && !<C::IsogenousCurve as SWCurveConfig>::COEFF_B.is_zero(), || format!("{name}: isogenous curve has a = 0 or b = 0"));
+    let g = <C::IsogenousCurve as SWCurveConfig>::GENERATOR;
+    t.check(sw_on_curve::<C::IsogenousCurve>(g.x, g.y), || format!("{name}: generator of the isogenous curve is not on it"));
+    let m = &C::ISOGENY_MAP;
+    t.check(m.x_map_numerator.len() == m.x_map_denominator.len() + 1 || m.x_map_numerator.len() == m.x_map_denominator.len(), || format!("{name}: isogeny x-map degrees inconsistent"));
+}
+
 pub fn glv_consistency<C: GLVConfig>(t: &mut Tally, name: &str, rng: &mut Rng) {
     let r = modulus::<C::ScalarField>();
     let lam = to_big(&C::LAMBDA);
@@ -309,12 +326,18 @@ macro_rules! inventory {
     (@cons sw $path:path, $name:expr, $t:ident, $rng:ident) => { guard($t, $name, $rng, sw_consistency::<$path>); };
     (@cons te $path:path, $name:expr, $t:ident, $rng:ident) => { guard($t, $name, $rng, te_consistency::<$path>); };
     (@cons glv $path:path, $name:expr, $t:ident, $rng:ident) => { guard($t, $name, $rng, glv_consistency::<$path>); };
+    (@cons ell2 $path:path, $name:expr, $t:ident, $rng:ident) => { guard($t, $name, $rng, ell2_consistency::<$path>); };
+    (@cons swuwb $path:path, $name:expr, $t:ident, $rng:ident) => { guard($t, $name, $rng, swu_consistency::<$path>); };
     (@scal sw $path:path, $name:expr, $t:ident, $rng:ident) => { guard($t, $name, $rng, scalar_group::<sw::Projective<$path>>); };
     (@scal te $path:path, $name:expr, $t:ident, $rng:ident) => { guard($t, $name, $rng, scalar_group::<te::Projective<$path>>); };
     (@scal glv $path:path, $name:expr, $t:ident, $rng:ident) => {};
+    (@scal ell2 $path:path, $name:expr, $t:ident, $rng:ident) => {};
+    (@scal swuwb $path:path, $name:expr, $t:ident, $rng:ident) => {};
     (@sub sw $path:path, $name:expr, $t:ident, $rng:ident) => { guard($t, $name, $rng, sw_subgroup::<$path>); };
     (@sub te $path:path, $name:expr, $t:ident, $rng:ident) => { guard($t, $name, $rng, te_subgroup::<$path>); };
     (@sub glv $path:path, $name:expr, $t:ident, $rng:ident) => {};
+    (@sub ell2 $path:path, $name:expr, $t:ident, $rng:ident) => {};
+    (@sub swuwb $path:path, $name:expr, $t:ident, $rng:ident) => {};
 }
 
 inventory! {
@@ -367,6 +390,13 @@ inventory! {
     sw ark_secq256k1::Config, "curves/secq256k1 (SW)";
     sw ark_vesta::VestaConfig, "curves/vesta (SW)";
     glv ark_vesta::VestaConfig, "curves/vesta (GLV)";
+    ell2 ark_ed_on_bls12_381_bandersnatch::BandersnatchConfig, "curves/ed_on_bls12_381_bandersnatch (Elligator2 constants)";
+    swuwb ark_bls12_377::g1::Config, "curves/bls12_377 g1 (SWU/WB constants)";
+    swuwb ark_bls12_377::g2::Config, "curves/bls12_377 g2 (SWU/WB constants)";
+    swuwb ark_bls12_381::g1::Config, "curves/bls12_381 g1 (SWU/WB constants)";
+    swuwb ark_bls12_381::g2::Config, "curves/bls12_381 g2 (SWU/WB constants)";
+    swuwb ark_test_curves::bls12_381::g1::Config, "test-curves/bls12_381 g1 (SWU/WB constants)";
+    swuwb ark_test_curves::bls12_381::g2::Config, "test-curves/bls12_381 g2 (SWU/WB constants)";
     sw ark_test_curves::bls12_381::g1::Config, "test-curves/bls12_381 g1 (SW)";
     glv ark_test_curves::bls12_381::g1::Config, "test-curves/bls12_381 g1 (GLV)";
     sw ark_test_curves::bls12_381::g2::Config, "test-curves/bls12_381 g2 (SW)";
